@@ -74,6 +74,10 @@ NUMERAL_FIRST = [  # a numeral as the first operand of a comparison / arithmetic
     ("(and (> 2 (+ (f) (g ?y))))", "(and (assign (g ?x) (- 10 (g ?y))))"),
     ("(and (or (r) (< 0.5 (h ?x ?y))))", "(and (when (<= 1 (g ?y)) (decrease (h ?x ?y) (/ 1 (g ?y)))))"),
 ]
+CONSTANT_SECOND = [  # (in)equalities between a parameter and a domain constant, the constant written second / first
+    ("(and (not (= ?x c)) (p ?y))", "(and (q ?x ?y))"), ("(and (or (= ?y c) (p ?x)))", "(and (r))"),
+    ("(and (not (= c ?y)) (not (= ?x ?y)))", "(and (when (= ?x c) (p ?y)))"),
+]
 TWO_BOUND = [  # two quantified effects / conditions with differently named variables
     ("(and)", "(and (forall (?z - t1) (when (q ?x ?z) (p ?z))) (forall (?w - t1) (when (q ?w ?y) (not (q ?w ?y)))))"),
     ("(and (forall (?z - t1) (or (p ?z) (q ?z ?x))) (forall (?w - t2) (and (not (q ?y ?w)))))",
@@ -132,6 +136,8 @@ def cases(tier):
         progs.append(vdom.program("xy", pre, eff, ["twins"]))
     for pre, eff in SHADOW:
         progs.append(vdom.program("xy", pre, eff, ["shadow-param"]))
+    for pre, eff in CONSTANT_SECOND:
+        progs.append(vdom.program("xy", pre, eff, ["constant-second"]))
     for pre, eff in NUMERAL_FIRST + TWO_BOUND:
         progs.append(vdom.program("xy", pre, eff, ["numeral-first" if (pre, eff) in NUMERAL_FIRST else "two-bound"]))
     # parameters named like the variables of the :predicates / :functions declarations (?a ?b): terms spelled exactly as
